@@ -85,6 +85,9 @@ def run(ctx) -> None:
     ctx.explanation = EXPLANATION
     m = pmod("datetime")
     ctx.step(AD.datetime_add_shape, ctx)
+    from . import C01
+    ctx.step(C01._convert_aware, ctx, "Timezone")          # add() renders the shifted instant through tz.convert(): its aware path must be astimezone(self)
+    ctx.step(C01._convert_aware, ctx, "FixedTimezone")
     ctx.step(AD.neg_symmetry, ctx, m, "DateTime")
     ctx.step(_timedelta_arms, ctx)
     ctx.step(AD.carry_blocks, ctx)
